@@ -325,3 +325,76 @@ func init() {
 			return body, c12Check(&s, false)
 		}})
 }
+
+// thread ids stay unique while the pool is resized: the load regulation of the
+// processor shrinks the pool without waiting and grows it again a moment later,
+// so workers may still be leaving while new ones are numbered. Afterwards a host
+// thread takes a fresh id; it must differ from the id of every live worker
+// (resize-ids-*: short executions, explored to a higher preemption bound), and a
+// sink invocation on any worker and the host thread exclude each other in mutex m
+// (resize-*+sink+direct).
+func init() {
+	for _, n := range []int{2, 3} {
+		for _, withSink := range []bool{false, true} {
+			n, withSink := n, withSink
+			name := fmt.Sprintf("resize-ids-%dw", n)
+			q, t := 2, 3
+			if n == 3 {
+				q, t = 1, 2
+			}
+			desc := fmt.Sprintf("the pool of %d workers is shrunk to %d without waiting and grown again to %d, then a host thread takes a new id, which must differ from every live worker's id", n, n-2, n)
+			if withSink {
+				if n == 3 {
+					continue
+				}
+				name = fmt.Sprintf("resize-%dw+sink+direct", n)
+				q, t = 1, 2
+				desc += "; the host thread then enters mutex m while a sink invocation does the same"
+			}
+			register(&Scenario{Prop: "C12", Name: name, Quick: q, Thor: t, FreeQuick: 1, FreeThor: 1, QuickShards: 2, ThorShards: 8,
+				Desc: desc,
+				Make: func() (func(), func(e *vsched.Exec) (string, *vsched.Violation)) {
+					var s *c12State
+					body := func() {
+						s = &c12State{en: newEnv(n)}
+						s.install()
+						src := "gm := 0\ngn := 0\n" + c12Func("f0", []string{"m"}, 0) +
+							"sink s1\n kindmatch [\"k\"],\n {\n f0()\n }\n"
+						if _, err := s.en.eval(src); err != nil {
+							vsched.Fail("setup: %v", err)
+						}
+						ast, err := s.en.parse("f0()")
+						if err != nil {
+							vsched.Fail("setup: %v", err)
+						}
+						proc := s.en.erp.Processor
+						proc.Start()
+						tp := proc.ThreadPool()
+						tp.SetWorkerCount(n-2, false)
+						tp.SetWorkerCount(n, false)
+						tid := s.en.erp.NewThreadID()
+						s.tids = append(s.tids, tid)
+						if ids, ok := tp.State()["TotalWorkerThreads"].([]uint64); ok {
+							s.tids = append(s.tids, ids...)
+						}
+						if withSink {
+							var wg vsched.WaitGroup
+							wg.Add(1)
+							vsched.GoNamed("adder", func() {
+								rm := proc.NewRootMonitor(nil, nil)
+								proc.AddEventAndWait(engine.NewEvent("e", []string{"k"}, nil), rm)
+								wg.Done()
+							})
+							res, err := ast.Runtime.Eval(s.en.vs, make(map[string]interface{}), tid)
+							s.results = append(s.results, fmt.Sprintf("%v/%v", res, errString(err)))
+							wg.Wait()
+						}
+						vsched.Quiesce()
+						s.finish()
+						vsched.End()
+					}
+					return body, c12Check(&s, false)
+				}})
+		}
+	}
+}
